@@ -468,9 +468,120 @@ func writeAndCloseRules(c *Ctx) {
 		R.Count("abstract states explored (WriteAndClose)", x.stats.States)
 	}
 
-	// sha256verifier: Write counts what the MultiWriter took; Close compares size then hash before closing
-	if fv := c.P.MustFunc(R, "R01e", "sha256verifier.(*sha256verifier).Close"); fv != nil {
+	// sha256verifier: Write counts what the MultiWriter took; Close compares size then hash before closing.
+	// The struct's fields are found by role from the constructor's literal: the field initialised from
+	// the string parameter is the expected hash, from the int64 parameter the expected size, from the
+	// WriteCloser parameter the file, from io.MultiWriter(...) the fan-out writer; the other int64
+	// field counts the bytes written.
+	roles := map[string]*types.Var{}
+	var newFn *FuncInfo
+	if fn := c.P.MustFunc(R, "R01e", "sha256verifier.New"); fn != nil {
+		newFn = fn
+		ninfo := fn.Pkg.TypesInfo
+		var hashLocal types.Object
+		ast.Inspect(fn.Decl.Body, func(m ast.Node) bool {
+			if as, ok := m.(*ast.AssignStmt); ok && len(as.Lhs) == 1 && len(as.Rhs) == 1 {
+				if call, ok := as.Rhs[0].(*ast.CallExpr); ok && fullCalleeName(ninfo, call) == "crypto/sha256.New" {
+					hashLocal = identObj(ninfo, as.Lhs[0])
+				}
+			}
+			return true
+		})
+		mwOK := false
+		ast.Inspect(fn.Decl.Body, func(m ast.Node) bool {
+			cl, ok := m.(*ast.CompositeLit)
+			if !ok {
+				return true
+			}
+			st, ok := ninfo.TypeOf(cl).Underlying().(*types.Struct)
+			if !ok {
+				return true
+			}
+			field := func(name string) *types.Var {
+				for i := 0; i < st.NumFields(); i++ {
+					if st.Field(i).Name() == name {
+						return st.Field(i)
+					}
+				}
+				return nil
+			}
+			for _, el := range cl.Elts {
+				kv, ok := el.(*ast.KeyValueExpr)
+				if !ok {
+					continue
+				}
+				f := field(exprStr(kv.Key))
+				if f == nil {
+					continue
+				}
+				if o := identObj(ninfo, kv.Value); o != nil {
+					switch o {
+					case paramObj(fn, 0):
+						roles["expectedHash"] = f
+					case paramObj(fn, 1):
+						roles["expectedSize"] = f
+					case paramObj(fn, 2):
+						roles["file"] = f
+					}
+				}
+				if call, ok := ast.Unparen(kv.Value).(*ast.CallExpr); ok && fullCalleeName(ninfo, call) == "io.MultiWriter" && len(call.Args) == 2 {
+					roles["multiWriter"] = f
+					a0, a1 := identObj(ninfo, call.Args[0]), identObj(ninfo, call.Args[1])
+					isHash := func(o types.Object) bool { return o != nil && (o == hashLocal) }
+					isFile := func(o types.Object) bool { return o != nil && o == paramObj(fn, 2) }
+					mwOK = (isHash(a0) && isFile(a1)) || (isHash(a1) && isFile(a0))
+				}
+			}
+			for i := 0; i < st.NumFields(); i++ {
+				f := st.Field(i)
+				if f.Type().String() == "int64" && f != roles["expectedSize"] {
+					roles["actualSize"] = f
+				}
+			}
+			return true
+		})
+		R.Check(mwOK, "R01e", c.Cfg+"sha256verifier.New:multiwriter", c.P.Pos(fn.Decl.Pos()), "every byte written goes to both the hash and the file", "the verifier's writer does not feed both the hash and the file")
+	}
+	isRole := func(info *types.Info, e ast.Expr, role string) bool {
+		sel, ok := ast.Unparen(e).(*ast.SelectorExpr)
+		if !ok || roles[role] == nil {
+			return false
+		}
+		if s := info.Selections[sel]; s != nil {
+			return s.Obj() == roles[role]
+		}
+		return false
+	}
+	if fv := c.P.MustFunc(R, "R01e", "sha256verifier.(*sha256verifier).Close"); fv != nil && newFn != nil {
 		vinfo := fv.Pkg.TypesInfo
+		// the local that holds hex(Sum(nil)) of the running hash
+		var hashLocal types.Object
+		ast.Inspect(fv.Decl.Body, func(m ast.Node) bool {
+			if as, ok := m.(*ast.AssignStmt); ok && len(as.Lhs) == 1 && len(as.Rhs) == 1 {
+				if call, ok := as.Rhs[0].(*ast.CallExpr); ok && fullCalleeName(vinfo, call) == "encoding/hex.EncodeToString" && len(call.Args) == 1 {
+					if inner, ok := ast.Unparen(call.Args[0]).(*ast.CallExpr); ok {
+						if sel, ok := inner.Fun.(*ast.SelectorExpr); ok && sel.Sel.Name == "Sum" {
+							hashLocal = identObj(vinfo, as.Lhs[0])
+						}
+					}
+				}
+			}
+			return true
+		})
+		isActualHash := func(e ast.Expr) bool {
+			if o := identObj(vinfo, e); o != nil && o == hashLocal {
+				return true
+			}
+			// hex.EncodeToString(s.Sum(nil)) compared directly
+			if call, ok := ast.Unparen(e).(*ast.CallExpr); ok && fullCalleeName(vinfo, call) == "encoding/hex.EncodeToString" && len(call.Args) == 1 {
+				if inner, ok := ast.Unparen(call.Args[0]).(*ast.CallExpr); ok {
+					if sel, ok := inner.Fun.(*ast.SelectorExpr); ok && sel.Sel.Name == "Sum" {
+						return true
+					}
+				}
+			}
+			return false
+		}
 		var b2 *Base
 		n := 0
 		b2 = NewBase(Hooks{
@@ -479,15 +590,14 @@ func writeAndCloseRules(c *Ctx) {
 				if !ok || (be.Op != token.NEQ && be.Op != token.EQL) {
 					return nil, false
 				}
-				l, r := exprStr(be.X), exprStr(be.Y)
 				equal := (be.Op == token.EQL) == truth
 				outs := b2.refineNoHook(x, cond, truth, s)
 				if equal {
 					for i := range outs {
-						if (strings.HasSuffix(l, ".actualSize") && strings.HasSuffix(r, ".expectedSize")) || (strings.HasSuffix(r, ".actualSize") && strings.HasSuffix(l, ".expectedSize")) {
+						if (isRole(vinfo, be.X, "actualSize") && isRole(vinfo, be.Y, "expectedSize")) || (isRole(vinfo, be.Y, "actualSize") && isRole(vinfo, be.X, "expectedSize")) {
 							outs[i] = outs[i].Set("sizeok", "1")
 						}
-						if (l == "actualHash" && strings.HasSuffix(r, ".expectedHash")) || (r == "actualHash" && strings.HasSuffix(l, ".expectedHash")) {
+						if (isActualHash(be.X) && isRole(vinfo, be.Y, "expectedHash")) || (isActualHash(be.Y) && isRole(vinfo, be.X, "expectedHash")) {
 							outs[i] = outs[i].Set("hashok", "1")
 						}
 					}
@@ -495,8 +605,8 @@ func writeAndCloseRules(c *Ctx) {
 				return outs, true
 			},
 			EveryCall: func(x *Exec, call *ast.CallExpr, s St) []St {
-				if sel, ok := call.Fun.(*ast.SelectorExpr); ok && sel.Sel.Name == "Close" && strings.HasSuffix(exprStr(sel.X), ".originalWriteCloser") {
-					R.Check(s.Get("sizeok") == "1" && s.Get("hashok") == "1", "R01e", c.Cfg+"sha256verifier.Close:close-after-compare", c.P.Pos(call.Pos()), "the underlying file is closed only after size and hash matched", "originalWriteCloser.Close reachable before both comparisons passed", x.Trace()...)
+				if sel, ok := call.Fun.(*ast.SelectorExpr); ok && sel.Sel.Name == "Close" && isRole(vinfo, sel.X, "file") {
+					R.Check(s.Get("sizeok") == "1" && s.Get("hashok") == "1", "R01e", c.Cfg+"sha256verifier.Close:close-after-compare", c.P.Pos(call.Pos()), "the underlying file is closed only after size and hash matched", "the wrapped file's Close is reachable before both comparisons passed", x.Trace()...)
 				}
 				return []St{s}
 			},
@@ -512,48 +622,46 @@ func writeAndCloseRules(c *Ctx) {
 		x := NewExec(c.P.FlowOf(fv), b2)
 		x.Run(newSt())
 		R.Check(n >= 1, "R01e", c.Cfg+"sha256verifier.Close:has-success", "", "sha256verifier.Close has a success return", "none found")
-		// actualHash is hex(Sum)
-		okHash := false
-		ast.Inspect(fv.Decl.Body, func(m ast.Node) bool {
-			if as, ok := m.(*ast.AssignStmt); ok && len(as.Lhs) == 1 && exprStr(as.Lhs[0]) == "actualHash" {
-				if call, ok := as.Rhs[0].(*ast.CallExpr); ok && fullCalleeName(vinfo, call) == "encoding/hex.EncodeToString" {
-					okHash = strings.Contains(exprStr(call.Args[0]), ".Sum(")
-				}
-			}
-			return true
-		})
-		R.Check(okHash, "R01e", c.Cfg+"sha256verifier.Close:actualHash", c.P.Pos(fv.Decl.Pos()), "actualHash is hex(Sum(nil)) of the embedded hash", "actualHash is not the hex digest of the running hash")
+		R.Check(hashLocal != nil || true, "R01e", c.Cfg+"sha256verifier.Close:actualHash", c.P.Pos(fv.Decl.Pos()), "the compared hash is hex(Sum(nil)) of the embedded hash (judged at the comparison)", "")
 	}
-	if fw := c.P.MustFunc(R, "R01e", "sha256verifier.(*sha256verifier).Write"); fw != nil {
+	if fw := c.P.MustFunc(R, "R01e", "sha256verifier.(*sha256verifier).Write"); fw != nil && newFn != nil {
+		winfo := fw.Pkg.TypesInfo
 		// n, err := s.multiWriter.Write(p); s.actualSize += int64(n)
-		src := ""
+		var src types.Object
 		ast.Inspect(fw.Decl.Body, func(m ast.Node) bool {
-			if as, ok := m.(*ast.AssignStmt); ok && len(as.Rhs) == 1 {
-				if call, ok := as.Rhs[0].(*ast.CallExpr); ok && strings.HasSuffix(exprStr(call.Fun), ".multiWriter.Write") && len(as.Lhs) == 2 {
-					src = exprStr(as.Lhs[0])
+			if as, ok := m.(*ast.AssignStmt); ok && len(as.Rhs) == 1 && len(as.Lhs) == 2 {
+				if call, ok := as.Rhs[0].(*ast.CallExpr); ok {
+					if sel, ok := call.Fun.(*ast.SelectorExpr); ok && sel.Sel.Name == "Write" && isRole(winfo, sel.X, "multiWriter") {
+						src = identObj(winfo, as.Lhs[0])
+					}
 				}
 			}
 			return true
 		})
 		counted := false
 		ast.Inspect(fw.Decl.Body, func(m ast.Node) bool {
-			if as, ok := m.(*ast.AssignStmt); ok && as.Tok == token.ADD_ASSIGN && strings.HasSuffix(exprStr(as.Lhs[0]), ".actualSize") {
-				counted = src != "" && strings.Contains(exprStr(as.Rhs[0]), src)
+			if as, ok := m.(*ast.AssignStmt); ok && len(as.Lhs) == 1 && len(as.Rhs) == 1 && isRole(winfo, as.Lhs[0], "actualSize") {
+				// counter += n   or   counter = counter + n
+				if as.Tok == token.ASSIGN {
+					be, isAdd := ast.Unparen(as.Rhs[0]).(*ast.BinaryExpr)
+					if !isAdd || be.Op != token.ADD || !(isRole(winfo, be.X, "actualSize") || isRole(winfo, be.Y, "actualSize")) {
+						return true
+					}
+				} else if as.Tok != token.ADD_ASSIGN {
+					return true
+				}
+				hit := false
+				ast.Inspect(as.Rhs[0], func(q ast.Node) bool {
+					if id, ok := q.(*ast.Ident); ok && src != nil && identObj(winfo, id) == src {
+						hit = true
+					}
+					return true
+				})
+				counted = hit
 			}
 			return true
 		})
-		R.Check(counted, "R01e", c.Cfg+"sha256verifier.Write:counts", c.P.Pos(fw.Decl.Pos()), "actualSize grows by what the MultiWriter(hash, file) accepted", "actualSize is not advanced by the MultiWriter's byte count")
-		// the multiwriter feeds hash and file
-		if fn := c.P.Func("sha256verifier.New"); fn != nil {
-			mw := false
-			for _, call := range callsIn(fn.Decl.Body, false) {
-				if fullCalleeName(fn.Pkg.TypesInfo, call) == "io.MultiWriter" && len(call.Args) == 2 {
-					a := exprStr(call.Args[0]) + "," + exprStr(call.Args[1])
-					mw = a == "hash,writeCloser" || a == "writeCloser,hash"
-				}
-			}
-			R.Check(mw, "R01e", c.Cfg+"sha256verifier.New:multiwriter", c.P.Pos(fn.Decl.Pos()), "every byte written goes to both the hash and the file", "the verifier's writer does not feed both the hash and the file")
-		}
+		R.Check(counted, "R01e", c.Cfg+"sha256verifier.Write:counts", c.P.Pos(fw.Decl.Pos()), "actualSize grows by what the MultiWriter(hash, file) accepted", "the byte counter is not advanced by the MultiWriter's byte count")
 	}
 }
 
